@@ -156,8 +156,10 @@ def run(rep):
             continue
         gs, succ, errt = rb
         dom = T.dominators()
-        after = {b for b in range(T.n) if succ in dom[b]}
-        before = T.reachable_from([0]) - after
+        # blocks every feasible path reaches only through the success edge (feasibility: a path that went through an inlined helper's Err
+        # construction cannot leave the caller's `?` on the Ok edge)
+        before = feasible_reach(T, [0], avoid={succ})
+        after = set(range(T.n)) - before
         for bb, t in others:
             n_gen += 1
             rep.check(bb in after, 'C17.1.parse-dominates', f'after-parse:{cname(t)}', T.where(bb),
@@ -167,7 +169,7 @@ def run(rep):
             rep.bad('C17.1.no-panic-before-parse', f'panic-before-parse:{what}', T.where(bb), f'{what} can panic before the parse result is known / on the error path: {why}')
         if not ps:
             rep.ok('C17.1.no-panic-before-parse', f'panic-free-prefix:{tn}', T.where(bs), f'{len(before)} blocks before the success edge and on the error path, none panic-capable')
-        err_region = T.reachable_from([errt]) - after
+        err_region = feasible_reach(T, [errt]) - after
         other = []
         for b in sorted(err_region):
             for s in T.blocks[b]['stmts']:
@@ -175,7 +177,8 @@ def run(rep):
                 if rv['rk'] == 'aggregate' and (rv['agg'].startswith('adt:std::result::Result::Ok') or ((ERR + '::') in rv['agg'] and not rv['agg'].endswith('ParseError'))):
                     other.append(rv['agg'])
             t = T.blocks[b]['term']
-            if t['k'] == 'call' and not cname(t).startswith(('<std::result::Result<T, F> as std::ops::FromResidual', 'std::mem::drop')):
+            if t['k'] == 'call' and not cname(t).startswith(('<std::result::Result<T, F> as std::ops::FromResidual', 'std::mem::drop')) and \
+                    not cname(t).endswith('as std::ops::Try>::branch'):      # the caller's `?` on an inlined helper's result: error plumbing
                 other.append(cname(t))
         rep.check(not other, 'C17.2.parse-error-path', f'parse-error-path:{tn}', T.where(errt), f'the error path of {callee} does more than return the error: {other[:4]}',
                   ok_detail='error path only returns the residual')
@@ -192,7 +195,7 @@ def run(rep):
             continue
         if b2.kind != 'Closure' and n2 not in chain_fns and not (n2.startswith('<') and ' as ' in n2) and reads_field(b2, 'WriteOptions', 'validate'):
             callers = {cn for cn, cb in mir.bodies.items() for _, t in cb.calls() if cname(t) == n2}
-            if callers and callers <= chain_fns and local_is_field_value(mir, b2, 0, 'WriteOptions', 'validate'):
+            if callers and callers <= (chain_fns | set(helpers)) and local_is_field_value(mir, b2, 0, 'WriteOptions', 'validate'):
                 accessors0.add(n2)
     rep.check(len(validator_levels) == 1, 'C17.3.validator-call', 'validate-once', '', f'Validator::validate is called in {len(validator_levels)} functions of the generating chain', ok_detail='one function validates')
     gates = []
@@ -222,7 +225,7 @@ def run(rep):
         sw = my_gates[0][1]
         st2 = T.blocks[sw]['term']
         edges = [(v, tgt) for v, tgt in st2['targets']] + [(None, st2['otherwise'])]
-        reach = {v: T.reachable_from([tgt], avoid={sw}) for v, tgt in edges}
+        reach = {v: feasible_reach(T, [tgt], avoid={sw}) for v, tgt in edges}
         with_v = [v for v, tgt in edges if vb in reach[v]]
         without_v = [v for v, tgt in edges if vb not in reach[v]]
         rep.check(len(with_v) == 1 and len(without_v) == 1, 'C17.3.validator-gated', f'validate-gated:{tn}', T.where(sw),
@@ -242,11 +245,12 @@ def run(rep):
             some_tgt = [tgt for v, tgt in edges if v == with_v[0]][0]
             unguarded = feasible_reach(T, [some_tgt], avoid={vsucc, sw})      # paths through an inlined helper's Err return cannot continue on Ok
             bad_calls = [cname(t) for b, t in gen if b in unguarded]
-            bad_calls += [cname(t) + ' (before the validation gate)' for b, t in gen if sw not in dom[b]]
+            pre_gate = feasible_reach(T, [0], avoid={sw})
+            bad_calls += [cname(t) + ' (before the validation gate)' for b, t in gen if b in pre_gate]
             rep.check(not bad_calls, 'C17.3.validate-dominates', f'validate-dominates:{tn}', T.where(vb),
                       f'with validation enabled these generation calls can run without the validator having accepted the module (or before the gate, pre-empting its error): {bad_calls[:5]}',
                       ok_detail='every generation call of this level is behind the gate and, on the Some arm, behind the validator\'s success edge')
-            er = T.reachable_from([verr], avoid={vs})
+            er = feasible_reach(T, [verr], avoid={vs})
             rep.check(error_built_from(mir, T, vt, 'ValidationError', er), 'C17.3.validation-error-value', f'validation-error:{tn}', T.where(vb),
                       'the validator\'s error is not returned as CreateModuleError::ValidationError carrying that very error value', ok_detail='Err edge returns ValidationError { error } built from the validator\'s error')
         # validator sees the module that is generated from / returned
@@ -283,7 +287,7 @@ def run(rep):
         if reads_field(b2, 'WriteOptions', 'validate') and n2 not in chain_fns:
             # an accessor helper: returns the option's value itself (its Some/None-ness is that of `validate`) and is called from the chain only
             callers = {cn for cn, cb in mir.bodies.items() for _, t in cb.calls() if cname(t) == n2}
-            if b2.kind != 'Closure' and callers and callers <= chain_fns and local_is_field_value(mir, b2, 0, 'WriteOptions', 'validate'):
+            if b2.kind != 'Closure' and callers and callers <= (chain_fns | set(helpers)) and local_is_field_value(mir, b2, 0, 'WriteOptions', 'validate'):
                 accessors.add(n2)
                 continue
             readers.append(n2)
